@@ -1,4 +1,4 @@
-// verif:properties C10 C09
+// verif:properties C10 C09 C04
 package uhppote
 
 import (
